@@ -11,7 +11,9 @@ Inductive probe :=
 | PSeq (bufs : list nat) (orc : list (nat * bool)) (obs : robs)
 | PAt (off n : nat) (obs : robs)
 | PWriteToAt (obs : robs)          (* the destination file after WriteTo through a WriterAt *)
-| PWriteTo (obs : robs).           (* the bytes received by a plain Writer (io.Copy, 32 KiB buffer) *)
+| PWriteTo (obs : robs)            (* the bytes received by a plain Writer (io.Copy, 32 KiB buffer) *)
+| PWarmSeq (obs : robs)            (* a whole sequential read through an instance that had read the object before the damage *)
+| PWarmAt (off n : nat) (obs : robs).
 
 Record put_obs := { po_class : N (* 0 ok 1 hang 2 panic 3 err *); po_written : nat; po_key : list N;
                     po_keys : list (list N); po_found : bool }.
@@ -74,10 +76,11 @@ Definition model_probe (L : nat) (root : list N) (s : bstore) (p : probe) : robs
                    end
       end
   | PWriteTo _ => of_outcome (read_seq HB L root s (repeat 32768%nat (S (length (concat (map snd s))))) [])
+  | PWarmSeq o | PWarmAt _ _ o => o      (* caches may or may not be hit: not predicted, only judged *)
   end.
 
 Definition probe_obs (p : probe) : robs :=
-  match p with PSeq _ _ o | PAt _ _ o | PWriteToAt o | PWriteTo o => o end.
+  match p with PSeq _ _ o | PAt _ _ o | PWriteToAt o | PWriteTo o | PWarmSeq o | PWarmAt _ _ o => o end.
 
 Definition content (c : ccase) : list N := concat (cc_chunks c).
 
@@ -101,7 +104,7 @@ Definition case_mismatch (c : ccase) : bool := put_mismatch c || probes_mismatch
 (* ---- the properties on the implementation's observations ---- *)
 Definition expected_probe (c : ccase) (p : probe) : list N :=
   match p with
-  | PAt off n _ => firstn n (skipn off (content c))
+  | PAt off n _ | PWarmAt off n _ => firstn n (skipn off (content c))
   | _ => content c
   end.
 
